@@ -1820,9 +1820,13 @@ impl JsObject {
             if let PropertyKey::String(ref s) = key
                 && s.as_str() == "length"
             {
-                if let JsValue::Number(n) = value {
-                    let new_len = n as usize;
-                    elements.resize(new_len, JsValue::Undefined);
+                // Anything but an integer in 0..=2^32 - 1 is not a length (the assignment
+                // operator reports it as a RangeError before it gets here)
+                if let JsValue::Number(n) = value
+                    && (0.0..=u32::MAX as f64).contains(&n)
+                    && math::fract(n) == 0.0
+                {
+                    elements.resize(n as usize, JsValue::Undefined);
                 }
                 return;
             }
